@@ -269,3 +269,55 @@ pub fn print_redundant(e: &E, rng: &mut Rng) -> String {
     p.print(e, &mut out);
     out.join(" ")
 }
+
+// ---------------------------------------------------------------- lexer canonical form (C29/C30/C33)
+pub fn hex_str(s: &str) -> String {
+    if s.is_empty() { return "-".into(); }
+    s.bytes().map(|b| format!("{b:02x}")).collect()
+}
+
+/// same format as the Lean driver's `lex` / `lexkinds` answers
+pub fn impl_lex(src: &str, spans: bool) -> String {
+    let r = std::panic::catch_unwind(|| abra_core::verif_lex(src));
+    let (toks, errs) = match r {
+        Ok(x) => x,
+        Err(_) => return "crash".into(),
+    };
+    let mut words: Vec<String> = vec![];
+    for (tag, payload, lo, hi) in &toks {
+        let has_payload = matches!(tag.as_str(), "IntLit" | "FloatLit" | "StringLit" | "Ident" | "PolyIdent");
+        let mut w = if has_payload { format!("{tag}:{}", hex_str(payload)) } else { tag.clone() };
+        if spans {
+            w.push_str(&format!("/{lo}/{hi}"));
+        }
+        words.push(w);
+    }
+    let mut s = words.join(" ");
+    s.push_str(" |");
+    for (kind, lo, hi) in &errs {
+        match kind.as_str() {
+            "UnrecognizedToken" => s.push_str(&format!(" U/{lo}")),
+            "UnrecognizedEscapeSequence" => s.push_str(&format!(" E/{lo}/{hi}")),
+            k => s.push_str(&format!(" ?{k}")),
+        }
+    }
+    s
+}
+
+/// the generator's string printer = `Abra.Lex.escape` (AbraModel/Literals.lean); q ∈ {'s','d','t'}
+pub fn escape(q: char, s: &str) -> String {
+    let mut o = String::new();
+    for c in s.chars() {
+        match c {
+            '\\' => o.push_str("\\\\"),
+            '"' => if q == 's' { o.push('"') } else { o.push_str("\\\"") },
+            '\'' => if q == 's' { o.push_str("\\'") } else { o.push('\'') },
+            '\n' => o.push_str("\\n"),
+            '\t' => o.push_str("\\t"),
+            '\r' => o.push_str("\\r"),
+            c if (c as u32) < 0x20 || (c as u32) == 0x7f => o.push_str(&format!("\\x{:02x}", c as u32)),
+            c => o.push(c),
+        }
+    }
+    o
+}
